@@ -1138,3 +1138,63 @@ func (m *Model) isFreshScopeOf(v ssa.Value, env ssa.Value, newEnclosed *ssa.Func
 	}
 	return false
 }
+
+// RunEvalState — R-LOOP (evaluator state): what a construct evaluates to is decided by the construct and its
+// environment, not by what the evaluator did before. No method of the Evaluator writes a field of the Evaluator after
+// construction — except counters (integer fields only ever stepped by a constant: a nesting guard). A flag such as
+// "inside a loop" that one construct sets and another resets changes what @break / @continue mean after an inner loop
+// has ended.
+func (m *Model) RunEvalState(s *Sink, rule string) {
+	evT := m.namedType("evaluator", "Evaluator")
+	if evT == nil {
+		s.Undecided(rule, "evaluator.Evaluator", "-", "type not found")
+		return
+	}
+	type fw struct {
+		fn  *ssa.Function
+		st  *ssa.Store
+		fld int
+	}
+	var writes []fw
+	for _, fn := range m.ModFns {
+		if fn.Blocks == nil || isUserPkg(fnPkgPath(fn)) {
+			continue
+		}
+		for _, b := range fn.Blocks {
+			for _, in := range b.Instrs {
+				st, ok := in.(*ssa.Store)
+				if !ok {
+					continue
+				}
+				fa, ok := st.Addr.(*ssa.FieldAddr)
+				if !ok {
+					continue
+				}
+				if pn := ptrNamed(fa.X.Type()); pn == nil || !types.Identical(pn, evT) {
+					continue
+				}
+				if _, fresh := fa.X.(*ssa.Alloc); fresh {
+					continue // the evaluator under construction
+				}
+				writes = append(writes, fw{fn, st, fa.Field})
+			}
+		}
+	}
+	bad := 0
+	for _, w := range writes {
+		fname := fieldName(w.st.Addr.(*ssa.FieldAddr).X.Type(), w.fld)
+		// a counter step: field = field ± const
+		if bo, ok := w.st.Val.(*ssa.BinOp); ok && (bo.Op == token.ADD || bo.Op == token.SUB) && isInteger(bo.Type()) {
+			if _, isK := bo.Y.(*ssa.Const); isK {
+				if _, p, okP := pathOf(bo.X); okP && strings.HasSuffix(p, "."+fname) {
+					continue
+				}
+			}
+		}
+		bad++
+		s.Violation(rule, fmt.Sprintf("%s|writes the evaluator's field %s", fnKey(w.fn), fname), m.InstrPos(w.st), "%s writes the field %s of the evaluator while evaluating: what a later construct evaluates to then depends on what was evaluated before it (a flag set by one loop and reset when an inner loop ends changes the meaning of @break / @continue for the rest of the outer loop)", fnKey(w.fn), fname)
+	}
+	if bad == 0 {
+		s.OK(rule, "evaluator.Evaluator|no field is written after construction", "-", "%d stores into fields of an existing Evaluator, all counter steps", len(writes))
+	}
+}
